@@ -56,6 +56,7 @@ CPPScope(CPPScope *parent_scope,
   _subst_decl_recursive_protect = false;
   _using_search_protect = false;
   _base_search_protect = false;
+  _write_recursive_protect = false;
 }
 
 /**
@@ -994,6 +995,14 @@ output(ostream &out, CPPScope *scope) const {
  */
 void CPPScope::
 write(ostream &out, int indent_level, CPPScope *scope) const {
+  if (_write_recursive_protect) {
+    // A scope can end up among its own declarations ("namespace a {
+    // namespace a {} }" reopens the outer a; "struct X { {} struct X; };");
+    // don't write it within itself forever.
+    return;
+  }
+  ((CPPScope *)this)->_write_recursive_protect = true;
+
   CPPVisibility vis = V_unknown;
   Declarations::const_iterator di;
   for (di = _declarations.begin(); di != _declarations.end(); ++di) {
@@ -1012,6 +1021,8 @@ write(ostream &out, int indent_level, CPPScope *scope) const {
     cd->output(out, indent_level, scope, complete);
     out << ";\n";
   }
+
+  ((CPPScope *)this)->_write_recursive_protect = false;
 }
 
 /**
